@@ -5,6 +5,19 @@ ROOT = os.path.dirname(os.path.dirname(os.path.abspath(__file__)))
 PROPS = [json.loads(l)["id"] for l in open(os.path.join(ROOT, "properties.jsonl"))]
 
 CLAIMED = {
+ "C01": dict(
+   text="Machine-checked Coq theorem: the ZIP64 part of the central record the writer emits is exactly what the reader's "
+        "extra-field decoding needs to recover the three 64-bit values from the clamped 32-bit fields, for all values "
+        "< 2^64 incl. exactly 0xFFFFFFFF (the D9 boundary).  The full round-trip theorem (open (finish ops) = spec "
+        "entries) is not yet proved; it is carried by the correspondence: a statement-by-statement Gallina model of "
+        "ZipWriter (over a plan-driven sink, compressors as an oracle supplied by the codec libraries) reproduces the "
+        "crate's archive BYTE FOR BYTE on random programs (all methods x levels, name/timestamp/permission/comment "
+        "shapes, large_file, directories, symlinks, split writes, short-writing sinks), for finish() and for drop; the "
+        "reader model then reads those bytes like the crate does; the oracle checks that every re-read entry equals what "
+        "was written and that drop bytes = finish bytes.",
+   note="Trusted: Coq kernel, extraction+driver, harness, codec libraries as enc oracle (dec(enc x)=x checked by CPython for deflate/bzip2 and by the crate's reader for zstd). PARTIAL: whole-archive round-trip theorem pending.",
+   technique="Coq proof (writer/reader ZIP64 field agreement) + byte-exact writer-model correspondence and re-read oracle",
+   design="8 (C01)"),
  "C03": dict(
    text="Machine-checked Coq theorems over the reader model: lookup by name returns the LAST entry carrying the decoded "
         "name, an absent name and an out-of-range index are not-found, an undecodable method fails that entry only.  "
@@ -103,6 +116,20 @@ CLAIMED = {
    note="Trusted: Coq kernel, extraction+driver, harness. The AES layer's streams lemma and the writer-side (short writes) theorems are not yet proved: AES and compressed entries are exercised by the correspondence/oracle only; decoder chunk independence is an assumption.",
    technique="Coq proof (compositional stream denotations lifted by induction over schedules) + schedule-enumeration correspondence",
    design="8 (C09)"),
+ "C12": dict(
+   text="Machine-checked Coq theorems over the writer state-machine model: writing with no file open (also after a "
+        "directory or symlink) is the no-file error and leaves the state unchanged; ending extra data never begun is an "
+        "error; once the writer is closed (finish, or a failed compressor switch) write/start/end-extra/finish all return "
+        "the closed error with the state unchanged; an unsupported method or a level outside a compressing method's range "
+        "is an error that closes the writer; accepted extra data fits 16 bits incl. the local ZIP64 reservation and its "
+        "first record is complete, not ZIP64, not reserved.  Correspondence: ALL call sequences to depth 3 (4 thorough) over "
+        "the full alphabet with small parameter domains plus random sequences up to depth 200: every call's "
+        "Ok/Err(kind)/Panic and the final sink bytes equal the model's; oracle: no panic, misuse is an error, and when "
+        "finish succeeds an independent strict validator accepts the archive and finds exactly the entries whose creation "
+        "succeeded with the bytes successfully written.",
+   note="Trusted: Coq kernel, extraction+driver, harness, strictzip.py. PARTIAL: the no-panic theorem over all call sequences (invariant over the seven state components) is not yet proved in Coq; it rests on the exhaustive-depth correspondence.",
+   technique="Coq proof (misuse lemmas over the writer state machine) + exhaustive bounded-depth call-sequence correspondence",
+   design="8 (C12)"),
  "C15": dict(
    text="Machine-checked Coq theorems over definitions regenerated from src/zipcrypto.rs: the CRC table, initial keys, "
         "key update and stream byte equal the PKWARE cipher transcribed from APPNOTE with a bitwise CRC (table by "
